@@ -167,6 +167,15 @@ class SpecMixin:
         if nm in ('objsub', 'objadd', 'objmul'):
             op = {'objsub': ast.Sub(), 'objadd': ast.Add(), 'objmul': ast.Mult()}[nm]
             return self.object_binop(op, self.ev(node.args[0], st, fr), self.ev(node.args[1], st, fr), st, fr)
+        if nm.startswith('fp_'):
+            vals = [self.ev(a, st, fr) for a in node.args]
+            if nm == 'fp_finite':
+                v = vals[0]
+                return z3.And(z3.Not(z3.fpIsNaN(v)), z3.Not(z3.fpIsInf(v)))
+            a, b = self.fp_pair(vals[0], vals[1])
+            if nm == 'fp_same':
+                return a == b
+            return {'fp_ge': z3.fpGEQ, 'fp_gt': z3.fpGT, 'fp_lt': z3.fpLT, 'fp_le': z3.fpLEQ, 'fp_eq': z3.fpEQ}[nm](a, b)
         if nm == 'cint':
             return self.coerce_ctype(self.ev(node.args[0], st, fr), 'int')
         if nm == 'to_int':
